@@ -346,9 +346,10 @@ class ServerSession:
     """Handshaken session: tested server (VTransport + RecordingServer(policy)) and a raw-mode
     puppet client. SERVICE_REQUEST ssh-userauth has been exchanged unless service=False."""
 
-    def __init__(self, policy=None, allowed="password,publickey,keyboard-interactive,none", host_keys=("ed25519",), service=True, server_kw=None, srv=None):
+    def __init__(self, policy=None, allowed="password,publickey,keyboard-interactive,none", host_keys=("ed25519",), service=True, server_kw=None, srv=None, client_kw=None):
+        # client_kw: constructor keywords of the puppet (e.g. packetizer_class=<RecPacketizer subclass>)
         self.srv = srv if srv is not None else peers.RecordingServer(policy or {}, allowed=allowed)
-        self.link, self.puppet, self.server = peers.make_pair(client_cls=peers.Puppet, server_cls=peers.VTransport, host_keys=host_keys, server_kw=server_kw)
+        self.link, self.puppet, self.server = peers.make_pair(client_cls=peers.Puppet, server_cls=peers.VTransport, host_keys=host_keys, server_kw=server_kw, client_kw=client_kw)
         self.seen = 0
         self.closed = False
         try:
